@@ -70,29 +70,49 @@ func verifC19Tables(ds *AnySource) VerifC19Tables {
 	return t
 }
 
-// VerifC19Lancero builds a LanceroSource whose active cards are devs (in this order; no hardware),
-// with the numbering parameters a LanceroSourceConfig would set, and calls the real PrepareChannels
-// `calls` times without reconfiguring in between.  The source is returned for VerifC19Start.
-func VerifC19Lancero(devs []VerifC19Dev, firstRow, sepCards, sepCols, calls int) ([]VerifC19Tables, *AnySource) {
+// VerifC19LanceroStep is one step of a history on ONE LanceroSource object: either a reconfiguration
+// (what Configure + Sample establish: active cards in this order, their geometry, the numbering
+// parameters) followed by PrepareChannels, or (Retry) PrepareChannels again on the state left behind.
+type VerifC19LanceroStep struct {
+	Retry                       bool
+	Devs                        []VerifC19Dev
+	FirstRow, SepCards, SepCols int
+}
+
+// VerifC19LanceroSeq runs the steps on one LanceroSource (no hardware) and returns the tables the real
+// PrepareChannels left after every step.  The source is returned for VerifC19Start.
+func VerifC19LanceroSeq(steps []VerifC19LanceroStep) ([]VerifC19Tables, *AnySource) {
 	ls := new(LanceroSource)
 	ls.name = "Lancero"
 	ls.nsamp = 1
 	ls.devices = make(map[int]*LanceroDevice)
 	ls.channelsPerPixel = 2
-	ls.firstRowChanNum = firstRow
-	ls.chanSepCards = sepCards
-	ls.chanSepColumns = sepCols
 	ls.sampleRate = 10000
 	ls.samplePeriod = 100 * time.Microsecond
-	for _, d := range devs {
-		dev := &LanceroDevice{devnum: d.Devnum, ncols: d.Ncols, nrows: d.Nrows}
-		ls.devices[d.Devnum] = dev
-		ls.ncards++
-		ls.active = append(ls.active, dev)
-		ls.nchan += dev.ncols * dev.nrows * 2 // as LanceroSource.Sample does
-	}
 	var out []VerifC19Tables
-	for k := 0; k < calls; k++ {
+	for _, st := range steps {
+		if !st.Retry {
+			// as LanceroSource.Configure
+			ls.active = make([]*LanceroDevice, 0)
+			ls.firstRowChanNum = st.FirstRow
+			ls.chanSepCards = st.SepCards
+			ls.chanSepColumns = st.SepCols
+			for _, d := range st.Devs {
+				dev := ls.devices[d.Devnum]
+				if dev == nil {
+					dev = &LanceroDevice{devnum: d.Devnum}
+					ls.devices[d.Devnum] = dev
+					ls.ncards++
+				}
+				dev.ncols, dev.nrows = d.Ncols, d.Nrows // what sampleCard learns
+				ls.active = append(ls.active, dev)
+			}
+			// as LanceroSource.Sample
+			ls.nchan = 0
+			for _, dev := range ls.active {
+				ls.nchan += dev.ncols * dev.nrows * 2
+			}
+		}
 		if err := ls.PrepareChannels(); err != nil {
 			out = append(out, VerifC19Tables{Rejected: true})
 			continue
@@ -100,6 +120,15 @@ func VerifC19Lancero(devs []VerifC19Dev, firstRow, sepCards, sepCols, calls int)
 		out = append(out, verifC19Tables(&ls.AnySource))
 	}
 	return out, &ls.AnySource
+}
+
+// VerifC19Lancero is one configuration followed by calls-1 retries.
+func VerifC19Lancero(devs []VerifC19Dev, firstRow, sepCards, sepCols, calls int) ([]VerifC19Tables, *AnySource) {
+	steps := []VerifC19LanceroStep{{Devs: devs, FirstRow: firstRow, SepCards: sepCards, SepCols: sepCols}}
+	for k := 1; k < calls; k++ {
+		steps = append(steps, VerifC19LanceroStep{Retry: true})
+	}
+	return VerifC19LanceroSeq(steps)
 }
 
 // verifC19Producer is a PacketProducer that hands out prepared packets once.
@@ -113,9 +142,9 @@ func (p *verifC19Producer) start() error        { return nil }
 func (p *verifC19Producer) discardStale() error { return nil }
 func (p *verifC19Producer) stop() error         { return nil }
 
-// VerifC19Abaco runs the real AbacoSource.Sample and PrepareChannels on packets announcing the given
-// (channel offset, number of channels) pairs, one list per packet producer.
-func VerifC19Abaco(producers [][][2]int) (VerifC19Tables, *AnySource) {
+// VerifC19AbacoSeq runs the real AbacoSource.Sample and PrepareChannels repeatedly on ONE AbacoSource; each
+// step gives, per packet producer, the (channel offset, number of channels) pairs its sampled packets announce.
+func VerifC19AbacoSeq(hist [][][][2]int) ([]VerifC19Tables, *AnySource) {
 	as := new(AbacoSource)
 	as.name = "Abaco"
 	as.groups = make(map[GroupIndex]*AbacoGroup)
@@ -123,64 +152,104 @@ func VerifC19Abaco(producers [][][2]int) (VerifC19Tables, *AnySource) {
 	as.channelsPerPixel = 1
 	as.subframeDivisions = abacoSubframeDivisions
 	sn := uint32(1)
-	for _, plist := range producers {
-		pp := &verifC19Producer{}
-		for _, on := range plist {
-			pk := packets.NewPacket(10, 0, sn, on[0])
-			pk.NewData(make([]int16, on[1]), []int16{int16(on[1])}) // an over-long payload still sets the shape
-			sn++
-			pp.pkts = append(pp.pkts, pk)
+	var out []VerifC19Tables
+	for _, producers := range hist {
+		as.producers = nil
+		for _, plist := range producers {
+			pp := &verifC19Producer{}
+			for _, on := range plist {
+				pk := packets.NewPacket(10, 0, sn, on[0])
+				pk.NewData(make([]int16, on[1]), []int16{int16(on[1])}) // an over-long payload still sets the shape
+				sn++
+				pp.pkts = append(pp.pkts, pk)
+			}
+			as.producers = append(as.producers, pp)
 		}
-		as.producers = append(as.producers, pp)
-	}
-	if err := as.Sample(); err != nil {
-		return VerifC19Tables{Rejected: true}, &as.AnySource
-	}
-	if err := as.PrepareChannels(); err != nil {
-		return VerifC19Tables{Rejected: true}, &as.AnySource
+		if err := as.Sample(); err != nil {
+			out = append(out, VerifC19Tables{Rejected: true})
+			continue
+		}
+		if err := as.PrepareChannels(); err != nil {
+			out = append(out, VerifC19Tables{Rejected: true})
+			continue
+		}
+		out = append(out, verifC19Tables(&as.AnySource))
 	}
 	as.sampleRate = 10000 // no timestamps in the prepared packets: give the START path a finite rate
-	return verifC19Tables(&as.AnySource), &as.AnySource
+	return out, &as.AnySource
 }
 
-// VerifC19Generic runs Configure, Sample and the default AnySource.PrepareChannels of a simulated source
-// (kind 0 = TriangleSource, 1 = SimPulseSource) with nchan channels.
-func VerifC19Generic(kind, nchan int) (VerifC19Tables, *AnySource) {
+// VerifC19Abaco is a one-step history.
+func VerifC19Abaco(producers [][][2]int) (VerifC19Tables, *AnySource) {
+	ts, ds := VerifC19AbacoSeq([][][][2]int{producers})
+	return ts[0], ds
+}
+
+// VerifC19GenericSeq runs Configure, Sample and the default AnySource.PrepareChannels of ONE simulated source
+// (kind 0 = TriangleSource, 1 = SimPulseSource) once per entry of nchans.
+func VerifC19GenericSeq(kind int, nchans []int) ([]VerifC19Tables, *AnySource) {
 	var ds DataSource
 	var any *AnySource
+	var ts *TriangleSource
+	var ps *SimPulseSource
 	if kind == 0 {
-		ts := NewTriangleSource()
-		if err := ts.Configure(&TriangleSourceConfig{Nchan: nchan, SampleRate: 10000, Min: 100, Max: 200}); err != nil {
-			return VerifC19Tables{Rejected: true}, &ts.AnySource
-		}
+		ts = NewTriangleSource()
 		ds, any = ts, &ts.AnySource
 	} else {
-		ps := NewSimPulseSource()
-		if err := ps.Configure(&SimPulseSourceConfig{Nchan: nchan, SampleRate: 10000, Pedestal: 1000,
-			Amplitudes: []float64{5000}, Nsamp: 100}); err != nil {
-			return VerifC19Tables{Rejected: true}, &ps.AnySource
-		}
+		ps = NewSimPulseSource()
 		ds, any = ps, &ps.AnySource
 	}
-	if err := ds.Sample(); err != nil {
-		return VerifC19Tables{Rejected: true}, any
+	var out []VerifC19Tables
+	for _, nchan := range nchans {
+		var err error
+		if kind == 0 {
+			err = ts.Configure(&TriangleSourceConfig{Nchan: nchan, SampleRate: 10000, Min: 100, Max: 200})
+		} else {
+			err = ps.Configure(&SimPulseSourceConfig{Nchan: nchan, SampleRate: 10000, Pedestal: 1000,
+				Amplitudes: []float64{5000}, Nsamp: 100})
+		}
+		if err == nil {
+			err = ds.Sample()
+		}
+		if err == nil {
+			err = ds.PrepareChannels()
+		}
+		if err != nil {
+			out = append(out, VerifC19Tables{Rejected: true})
+			continue
+		}
+		out = append(out, verifC19Tables(any))
 	}
-	if err := ds.PrepareChannels(); err != nil {
-		return VerifC19Tables{Rejected: true}, any
-	}
-	return verifC19Tables(any), any
+	return out, any
 }
 
-// VerifC19Roach runs the real RoachSource.PrepareChannels for a source of nchan channels.
-func VerifC19Roach(nchan int) (VerifC19Tables, *AnySource) {
+// VerifC19Generic is a one-step history.
+func VerifC19Generic(kind, nchan int) (VerifC19Tables, *AnySource) {
+	ts, ds := VerifC19GenericSeq(kind, []int{nchan})
+	return ts[0], ds
+}
+
+// VerifC19RoachSeq runs the real RoachSource.PrepareChannels on ONE source whose channel count changes.
+func VerifC19RoachSeq(nchans []int) ([]VerifC19Tables, *AnySource) {
 	rs := new(RoachSource)
 	rs.name = "Roach"
-	rs.nchan = nchan
 	rs.sampleRate = 10000
-	if err := rs.PrepareChannels(); err != nil {
-		return VerifC19Tables{Rejected: true}, &rs.AnySource
+	var out []VerifC19Tables
+	for _, nchan := range nchans {
+		rs.nchan = nchan
+		if err := rs.PrepareChannels(); err != nil {
+			out = append(out, VerifC19Tables{Rejected: true})
+			continue
+		}
+		out = append(out, verifC19Tables(&rs.AnySource))
 	}
-	return verifC19Tables(&rs.AnySource), &rs.AnySource
+	return out, &rs.AnySource
+}
+
+// VerifC19Roach is a one-step history.
+func VerifC19Roach(nchan int) (VerifC19Tables, *AnySource) {
+	ts, ds := VerifC19RoachSeq([]int{nchan})
+	return ts[0], ds
 }
 
 // VerifC19Start continues the Start path on prepared tables (the real PrepareRun), issues a real
